@@ -191,3 +191,51 @@ def expr_end_layouts(repo):
             out.append((text, got == want, 'get_expr_end(%r) = %r, the textually last node starts at %r' % (text, got, (want[0], want[1] - 1))))
         return out
     return repo.memo('exprend-layouts', build)
+
+
+# first statements of a block whose first token is not where the parser positions the statement node: a decorated definition
+# is positioned at its `def` / `class` keyword, its decorators come before
+FIRST_STATEMENTS = [
+    "x = 1\ny = 2\n",
+    "@deco(arg)\ndef inner():\n    pass\n",
+    "@deco(arg)\nasync def inner():\n    pass\n",
+    "@deco(arg)\nclass Inner(object):\n    pass\n",
+    "@first\n@second(arg)\nasync def inner():\n    pass\n",
+    "'''doc'''\nx = 1\n",
+    "if arg:\n    pass\n",
+]
+
+
+def first_statement_layouts(repo):
+    """-> list of (text, ok, detail): the helper that gives the position from which the parameters of a function are visible
+    (scope.get_first_body_node_loc, when supp has it) applied to concrete bodies: the position must not lie after the first token of
+    the body - the `@` of the first decorator for a decorated definition."""
+    def build():
+        import ast
+        facts = get_facts(repo)
+        fb = repo.optional_helper('supp/scope.py', 'get_first_body_node_loc')
+        if fb is None:
+            return []
+        rel = next(r for r, t in repo.trees.items() if any(n is fb for n in t.body))
+        out = []
+        for text in FIRST_STATEMENTS:
+            body = ast.parse(text).body
+            st = body[0]
+            decs = getattr(st, 'decorator_list', [])
+            first = (decs[0].lineno, decs[0].col_offset - 1) if decs else (st.lineno, st.col_offset)
+            it = Interp(repo, facts)
+            it.reset_path([])
+            try:
+                got = it.call(it.lookup_global(rel, 'get_first_body_node_loc'), [[from_ast(s, 'body[%d]' % i) for i, s in enumerate(body)]], {})
+            except InterpRaise as e:
+                out.append((text, False, 'raises %s' % e))
+                continue
+            except Uninterpretable as e:
+                out.append((text, None, str(e)))
+                continue
+            ok = isinstance(got, tuple) and len(got) == 2 and all(isinstance(x, int) for x in got) and tuple(got) <= first
+            out.append((text, ok, 'get_first_body_node_loc gives %r for a body starting with %r, whose first token is at %r: names '
+                        'visible from that position on (the parameters) are missing at the reads in front of it'
+                        % (got, text.splitlines()[0] + ' / ' + text.splitlines()[1], first)))
+        return out
+    return repo.memo('first-statement-layouts', build)
